@@ -17,6 +17,10 @@ def lenW : Nat := Facts.fieldLenWidth
 def u64W : Nat := Facts.fieldU64Width
 def u32W : Nat := Facts.fieldU32Width
 def tombW : Nat := Facts.fieldTombWidth
+/-- the byte `writeTombstone` writes for a delete and `ReadTombstone` compares with -/
+def tombMark : Nat := Facts.fieldTombMark
+/-- `uint32(offset)` in `IndexOffset` -/
+def offMod : Nat := 2 ^ Facts.sstOffsetBits
 
 /-- `binary.LittleEndian.PutUintNN` into a `w`-byte slice (truncates like the Go conversion `uintNN(n)`) -/
 def leBytes : Nat → Nat → Bytes
@@ -47,7 +51,7 @@ def readVar (r : Bytes) : Option (Bytes × Bytes) :=
 def encVar (b : Bytes) : Bytes := leBytes lenW b.length ++ b
 
 /-- `fields.MustWriteTombstone` -/
-def encTomb (d : Bool) : Bytes := leBytes tombW (if d then 1 else 0)
+def encTomb (d : Bool) : Bytes := leBytes tombW (if d then tombMark else 0)
 
 def readNats (w : Nat) : Nat → Bytes → Option (List Nat × Bytes)
   | 0, r => some ([], r)
@@ -91,13 +95,13 @@ def decEntry (r : Bytes) : Option (Entry × Bytes) :=
       match readNat tombW r2 with
       | none => none
       | some (t, r3) =>
-        if t = 1 then some (⟨k, s, true, []⟩, r3)
+        if t = tombMark then some (⟨k, s, true, []⟩, r3)
         else match readVar r3 with
           | none => none
           | some (v, r4) => some (⟨k, s, false, v⟩, r4)
 
 /-- `FlushSize` -/
-def flushSize (e : Entry) : Nat := (Facts.sstEntryOverhead + e.key.length + e.val.length) % 4294967296
+def flushSize (e : Entry) : Nat := (Facts.sstEntryOverhead + e.key.length + e.val.length) % 2 ^ Facts.sstFlushSizeBits
 
 /-! ## `dkv/bloom` -/
 
@@ -165,7 +169,7 @@ def spacing : Nat := Facts.sstIndexSpacing
 def indexOffsets : (items off : Nat) → List Entry → List Nat
   | _, _, [] => []
   | items, off, e :: es =>
-    (if items % spacing = 0 then [off % 4294967296] else []) ++ indexOffsets (items + 1) (off + (encEntry e).length) es
+    (if items % spacing = 0 then [off % offMod] else []) ++ indexOffsets (items + 1) (off + (encEntry e).length) es
 
 /-- `SearchIndex.Encode` -/
 def encIndex (offs : List Nat) : Bytes := leBytes u32W offs.length ++ encNats u32W offs
